@@ -29,10 +29,10 @@ def plan(ctx):
                           ("conf3tail", "conf", 3, "tail", 2500)],
                     corrupt=300)
     return dict(flavors=["oid/oid", "path/oidf", "oidf/path", "path/path"], resolvers=RESOLVERS,
-                fams=[("conf2", "conf", 2, None, None), ("mix2", "mix", 2, None, None), ("conf3", "conf", 3, None, 8000),
-                      ("std2", "std", 2, None, None), ("conf5", "conf", 5, "sim", 4000),
+                fams=[("conf2", "conf", 2, None, None), ("mix2", "mix", 2, None, 4000), ("conf3", "conf", 3, None, 3000),
+                      ("std2", "std", 2, None, 5000), ("conf5", "conf", 5, "sim", 2000),
                       ("conf3tail", "conf", 3, "tail", None), ("two3tail", "two", 3, "tail", 4000)],
-                corrupt=6000)
+                corrupt=3000)
 
 
 def shape(case, trace=None, line=None):
